@@ -190,6 +190,7 @@ def unbound_names(prog: list[str]) -> list[str]:
             defined.update(ln[5:].split(","))
             continue
         if ln.startswith("deco "):
+            defined = set()  # a new function: its own scope
             continue
         if ln.startswith("sig "):
             inner = ln[ln.index("(") + 1 : -1]
@@ -233,7 +234,7 @@ def unbound_names(prog: list[str]) -> list[str]:
     return out
 
 
-def classify(stage: str, case: dict, opts: dict, mprog: list[str] | None, mres: str) -> str | None:
+def classify(stage: str, case: dict, opts: dict, mprog: list[str] | None, mres: str, detail: str = "") -> str | None:
     """The OPEN known finding whose predicate contains this failing (case, options), if any.
     Fixed findings (D14, RENAME-SIG, NANINF, EMPTYLIST, POW-NEG, ATTR-INPUT-CLASH, SKIP-RAND, FOR-MAIN, SKIP-INDENT,
     OPS-NO-OPSET)
@@ -246,6 +247,9 @@ def classify(stage: str, case: dict, opts: dict, mprog: list[str] | None, mres: 
         return None
     if stage == "compile":
         return None
+    if (stage == "run" and isinstance(case["proto"], onnx.ModelProto) and len(case["proto"].functions)
+            and "is not a registered function/op" in detail):
+        return "C13-LOCAL-FUNCTIONS"
     if stage not in ("exec", "to_model"):
         # every open finding is a *refusal* of the generated text by the converter; a round trip that completes with a
         # different signature or different results is never known
@@ -357,6 +361,10 @@ def tie_cases(ctx: Ctx, cases: list[dict], optlist_of) -> list:
             jobs.append((case, opts, lits))
             case["facts"][L.opts_str(opts)] = facts(case["proto"], opts)
     outs = ctx.drv.ask(lines)
+    # the opset import lines of the header (one per proto: they do not depend on the options)
+    ilines = [L.enc_imports(c["proto"]) for c in cases]
+    for c, mi in zip(cases, ctx.drv.ask(ilines)):
+        c["model_imports"] = mi
     # fragment of export_roundtrip_partial: predicted re-read graph (only ModelProtos, rename=0, inline_const=0)
     slines, sidx = [], []
     for j, (case, opts, lits) in enumerate(jobs):
@@ -381,10 +389,26 @@ def tie_cases(ctx: Ctx, cases: list[dict], optlist_of) -> list:
                 ires = " ; ".join(L.canon_program(src, lits))
             except (L.Unparsable, SyntaxError) as e:
                 ires = "UNPARSABLE:" + type(e).__name__ + ":" + str(e)[:120]
+        if exc is None and not ires.startswith("UNPARSABLE"):
+            try:
+                real_imports = L.canon_imports(src)
+            except Exception as e:  # noqa: BLE001
+                real_imports = "UNPARSABLE:" + type(e).__name__
+            ctx.stats["import_lines_compared"] += 1
+            if real_imports != case.get("model_imports"):
+                ctx.tie_broken.append((case, opts, f"opset imports: model `{case.get('model_imports')}` impl `{real_imports}`"))
         if ires != mres:
             ctx.tie_broken.append((case, opts, f"model: {mres[:600]} || impl: {ires[:600]}"))
         else:
             ctx.stats["tie_ok"] += 1
+            if mprog and case["kind"] == "F":
+                attrs_ = list(case["proto"].attribute)
+                text = " ".join(mprog)
+                import re as _re
+                if any(_re.search(r"[ ,(=]" + _re.escape(a) + r"_\d+[ ,)|]", text) for a in attrs_):
+                    ctx.stats["branch_attr_conflict_renamed"] += 1
+            if mprog and not opts["rename"] and case["facts"][L.opts_str(opts)]["collide"]:
+                ctx.stats["branch_unique_suffix"] += 1
             if mprog:
                 for ln in mprog:
                     parts = ln.split(" ")
@@ -394,7 +418,7 @@ def tie_cases(ctx: Ctx, cases: list[dict], optlist_of) -> list:
 
 
 def fail(ctx: Ctx, case, opts, stage, detail, mprog, mres):
-    fid = classify(stage, case, opts, mprog, mres)
+    fid = classify(stage, case, opts, mprog, mres, detail)
     open_ids = {f["id"] for f in ctx.run.open_findings()}
     if fid and fid in open_ids:
         ctx.known[fid] += 1
@@ -425,6 +449,9 @@ def _oracle(ctx, case, opts, src, exc, mprog, mres):
     st = ctx.stats
     st["oracle_cases"] += 1
     refusal = case["meta"].get("refusal")
+    if refusal in GEN.PARTIAL_REFUSALS and exc is None:
+        st["partial_refusal_not_judged"] += 1
+        return
     if exc is not None:
         if refusal:
             st["refused_as_expected"] += 1
@@ -491,7 +518,7 @@ def _oracle(ctx, case, opts, src, exc, mprog, mres):
                 st["fragment_reread_ok"] += 1
         # ---- same graph inputs and outputs
         if case["kind"] == "M":
-            sig = next((ln for ln in (mprog or []) if ln.startswith("sig ")), "sig f(|)")
+            sig = ([ln for ln in (mprog or []) if ln.startswith("sig ")] or ["sig f(|)"])[-1]  # the main graph's
             sig_names = [x for x in sig[sig.index("(") + 1 : -1].split("|")[0].split(",") if x]
             # input names: what the exporter printed in the signature (cleaned, uniquified or short names);
             # distinct inputs must stay distinct
@@ -608,6 +635,62 @@ def type_stream(ctx: "Ctx", rng, n_random: int) -> None:
             ctx.failures.append((case, None, "type", f"annotation {text} of type {want} converts back to {got}"))
 
 
+_AST_SYM = {"Add": "+", "Sub": "-", "Mult": "*", "MatMult": "@", "Div": "/", "Pow": "**", "BitAnd": "&", "BitOr": "|",
+            "Gt": ">", "Eq": "==", "Lt": "<", "GtE": ">=", "LtE": "<=", "Mod": "%"}  # fmt: skip
+
+
+def table_stream(ctx: "Ctx") -> None:
+    """Translator-style tie for the three tables the theorems quantify over: the exporter's operator table (`ops` in
+    `_translate_node`), its `kwlist`, and the converter's `primop_map` — read from the current source with `ast` and
+    compared with the Lean tables; plus: every operator of the table must have no attribute in any ONNX schema version
+    (operator sugar prints none)."""
+    import ast as _ast
+
+    import onnx.defs
+
+    src = (core.REPO / "onnxscript/backend/onnx_export.py").read_text()
+    tree = _ast.parse(src)
+    ops = kw = None
+    for node in _ast.walk(tree):
+        if isinstance(node, _ast.Assign) and len(node.targets) == 1 and isinstance(node.targets[0], _ast.Name):
+            if node.targets[0].id == "ops" and isinstance(node.value, _ast.Dict):
+                ops = _ast.literal_eval(node.value)
+            if node.targets[0].id == "kwlist":
+                kw = _ast.literal_eval(node.value)
+    csrc = (core.REPO / "onnxscript/_internal/converter.py").read_text()
+    prim = None
+    for node in _ast.walk(_ast.parse(csrc)):
+        if isinstance(node, _ast.Assign) and isinstance(node.targets[0], _ast.Name) and node.targets[0].id == "primop_map":
+            prim = {k.attr: _ast.literal_eval(v) for k, v in zip(node.value.keys, node.value.values)}
+    if ops is None or kw is None or prim is None:
+        raise core.Infra("operator table / kwlist / primop_map not found in the source")
+    m_ops, m_conv, m_kw = ctx.drv.ask(["tables"])[0].split(" | ")
+    real_ops = ",".join(f"{k}:{v}" for k, v in ops.items())
+    real_conv = {_AST_SYM[k]: v for k, v in prim.items() if k in _AST_SYM}
+    model_conv = dict(x.split(":", 1) for x in m_conv.split(","))
+    ctx.stats["table_entries"] += len(ops) + len(real_conv) + len(kw)
+    case = {"kind": "tables"}
+    if real_ops != m_ops:
+        ctx.tie_broken.append((case, None, f"operator table: model {m_ops} impl {real_ops}"))
+    if real_conv != model_conv:
+        ctx.tie_broken.append((case, None, f"converter primop_map (by symbol): model {model_conv} impl {real_conv}"))
+    if sorted(kw) != sorted(m_kw.split(",")):
+        ctx.tie_broken.append((case, None, f"kwlist: model {sorted(m_kw.split(','))} impl {sorted(kw)}"))
+    for op in ops:
+        try:
+            # opset >= 7 (the pre-7 `broadcast`/`axis` attributes of the arithmetic operators are legacy; models
+            # of those versions are outside the generated class — noted in design_notes/C13.md)
+            schemas = [s for s in onnx.defs.get_all_schemas_with_history()
+                       if s.name == op and s.domain == "" and s.since_version >= 7]
+        except Exception:  # noqa: BLE001
+            schemas = []
+        attrs = sorted({a for s in schemas for a in s.attributes})
+        if attrs:
+            ctx.tie_broken.append((case, None, f"operator sugar prints `{op}` as `{ops[op]}` without attributes, but the ONNX "
+                                   f"schema of {op} declares {attrs}: the printed operator drops them"))
+        ctx.stats["sugar_ops_schema_checked"] += 1 if schemas else 0
+
+
 def gen_scripts(rng, n: int) -> list[dict]:
     bodies, info = [], []
     for i in range(n):
@@ -635,6 +718,39 @@ def gen_scripts(rng, n: int) -> list[dict]:
 
 
 FLOAT_ATTR_OPS = ["Elu", "LeakyRelu", "ThresholdedRelu", "Celu"]
+
+
+def gen_local_functions(rng, n: int) -> list[dict]:
+    """ModelProtos with model-local functions: a typed @script main calling 1-2 untyped @script helpers of a custom
+    domain (the documented way to structure script functions)."""
+    header = 'from onnxscript.values import Opset\nmy_dom = Opset("my.dom", 1)\nother = Opset("other-domain", 1)\n'
+    bodies, info = [], []
+    for i in range(n):
+        two = rng.random() < 0.4
+        h1 = f"helper{i}a"
+        h2 = f"helper{i}b"
+        src = f"@script(my_dom)\ndef {h1}(A, B):\n    t = op.{rng.choice(['Relu', 'Abs', 'Tanh'])}(A)\n    return op.{rng.choice(['Add', 'Mul', 'Sub'])}(t, B)\n"
+        bodies.append((h1, src))
+        if two:
+            inner = f"{h1}(A, A)" if rng.random() < 0.5 else "op.Neg(A)"
+            src2 = f"@script(other)\ndef {h2}(A):\n    u = {inner}\n    return op.Mul(op.Neg(u), A)\n"
+            bodies.append((h2, src2))
+        call2 = f"{h2}(t1)" if two else "op.Neg(t1)"
+        main = (f"@script()\ndef lf{i}(X: FLOAT[3], Y: FLOAT[3]) -> FLOAT[3]:\n    t1 = {h1}(X, Y)\n    t2 = {call2}\n"
+                f"    r = op.{rng.choice(['Add', 'Sub'])}(t2, {h1}(Y, X))\n    return r\n")
+        bodies.append((f"lf{i}", main))
+        info.append((f"lf{i}", two))
+    fn, err, modname = scriptgen.compile_functions(bodies, header_extra=header)
+    cases = []
+    for name, two in info:
+        if name in err:
+            continue
+        m = fn[name].to_model_proto()
+        meta = {"scheme": "localfn", "flags": ["local_functions"] + (["nested_local_function"] if two else []),
+                "refusal": None, "src": "localfn"}
+        cases.append(case_of_model(m, GEN.feeds_for(m, rng, 2), meta))
+    scriptgen.release(modname)
+    return cases
 
 
 def gen_attr_functions(rng, n: int) -> list[dict]:
@@ -797,6 +913,14 @@ def witnesses() -> list[tuple[str, dict, dict]]:
     cw = case_of_function(fp, [(TP.FLOAT, [3])], [(TP.FLOAT, [3])], [{"in0": X}], {"refusal": None, "flags": ["witness"]})
     cw["call_attrs"] = {"v2": 0.5}
     out.append(("C13-ATTR-INPUT-CLASH", cw, dict(base, rename=True)))
+    # a model with a model-local function: the call is printed through the Opset object, the definition is lost
+    fp = H.make_function("my.dom", "helper", ["A", "B"], ["R"],
+                         [H.make_node("Relu", ["A"], ["T"]), H.make_node("Add", ["T", "B"], ["R"])],
+                         [H.make_opsetid("", GEN.OPSET)])
+    g = H.make_graph([H.make_node("helper", ["x", "x"], ["t"], domain="my.dom"), H.make_node("Neg", ["t"], ["y"])], "g",
+                     [H.make_tensor_value_info("x", TP.FLOAT, [3])], [H.make_tensor_value_info("y", TP.FLOAT, [3])])
+    m = H.make_model(g, functions=[fp], opset_imports=[H.make_opsetid("", GEN.OPSET), H.make_opsetid("my.dom", 1)], ir_version=8)
+    out.append(("C13-LOCAL-FUNCTIONS", case_of_model(m, [{"x": X}], {"refusal": None, "flags": ["witness"]}), dict(base)))
     # If whose outputs are never used
     tb = H.make_graph([H.make_node("Neg", ["x"], ["k1"])], "t", [], [H.make_tensor_value_info("k1", TP.FLOAT, [3])])
     eb = H.make_graph([H.make_node("Abs", ["x"], ["k2"])], "e", [], [H.make_tensor_value_info("k2", TP.FLOAT, [3])])
@@ -913,6 +1037,7 @@ def _main(run: core.Run, ctx: Ctx, audit: dict) -> None:
     cleanup_stream(ctx, rng, run.size(1500, 20000))
 
     type_stream(ctx, rng, run.size(40, 400))
+    table_stream(ctx)
 
     # 2. witnesses of the known findings, on the real code
     open_ids = {f["id"] for f in run.open_findings()}
@@ -934,7 +1059,8 @@ def _main(run: core.Run, ctx: Ctx, audit: dict) -> None:
     ctx.stats["script_refused_by_converter"] = nrefused
     acases = gen_attr_functions(rng, n_attr)
     shcases = gen_shapes(rng, run.size(30, 200) * scale)
-    allcases = cases + scases + acases + shcases
+    lfcases = gen_local_functions(rng, run.size(8, 60) * scale)
+    allcases = cases + scases + acases + shcases + lfcases
     for c in allcases[:3] + scases[:2]:
         run.sample({"kind": c["kind"], "meta": {k: v for k, v in c["meta"].items() if k != "src"},
                     "text": onnx.printer.to_text(c["proto"])[:600]})  # fmt: skip
@@ -1016,6 +1142,18 @@ def verdict(run: core.Run, ctx: Ctx, audit: dict, ncases: int) -> None:
         explanation="all 16 option tuples are compared for every proto (tie); the execution oracle runs on a covering subset "
         "of option tuples per proto; single characters 1..127 and the keyword list are enumerated completely for cleanup",
     )
+    required = ["stmt_call", "stmt_op", "stmt_assign", "stmt_if", "stmt_else", "stmt_for", "stmt_while", "stmt_forbreak",
+                "stmt_wrap", "stmt_deco", "stmt_sig", "stmt_return", "err_KeyError", "err_NotImplementedError",
+                "err_RuntimeError", "err_AssertionError", "err_IndexError", "fragment_cases", "fragment_reread_ok",
+                "type_evals", "table_entries", "cleanup_evals", "import_lines_compared", "branch_attr_conflict_renamed", "branch_unique_suffix",
+                "roundtrip_ok_with_if", "roundtrip_ok_with_loop_for", "roundtrip_ok_with_loop_while",
+                "roundtrip_ok_with_init", "flag_loop_forcond", "flag_shapes", "flag_local_functions", "flag_attr_fn",
+                "refused_as_expected"]  # fmt: skip
+    missing = [k for k in required if not st[k]]
+    run.coverage["required_counters"] = {k: st[k] for k in required}
+    if missing and not run.violations:
+        # a vacuous pass is not a pass — but never mask a behavioural difference: violations were printed above
+        raise core.Infra(f"coverage counters are zero: {missing}")
     if st["oracle_cases"] and st["orig_not_runnable"] > 0.1 * st["oracle_cases"]:
         raise core.Infra("generator degenerated: >10% of original models not runnable")
     if st["exports"] < 16 * 0.7 * ncases:
